@@ -941,7 +941,10 @@ class Engine(object):
                 return not t_trap
             r = self.ctx.check(st.pc, tc)
             if r == 'unknown':
-                raise EngineError('solver unknown on UB check at %s line %d' % (F.name, ins[4]))
+                # undecided here: keep it as an obligation for the portfolio and continue on the normal side
+                st.obligations.append(('trap', tc, '%s:%s line %d' % (F.name, F.file, ins[4]), list(st.pc)))
+                st.decisions[key] = not t_trap
+                return not t_trap
             if r == 'unsat':
                 st.decisions[key] = not t_trap
                 return not t_trap
